@@ -17,3 +17,9 @@ add("C06", "model_checking",
     "Trusted: TLC, puppet peer (send-side scripting at _sendMsg/_queue_message), stepping loop. Deviations limited to what a key-holding peer can send without receiving more from the EUT (swap within one flight).",
     "TLA+ automaton + TLC-enumerated deviation scripts replayed into live handshakes (spec->code)",
     "tla-handshake")
+add("C17", "fault_enumeration",
+    "ConnLife.tla is the API contract (what handshake/read/write/close may return under each peer/transport condition and the closed/resumable state they must leave); TLC model-checks its clauses (TruncationNotEOF, NoResumeAfterFatal, NoCompleteAfterFault, FatalAlertSurfaced, CleanCloseKeepsResumable, WriteAfterCloseRaises). Fault enumeration: EOF/ECONNRESET/EPIPE injected at EVERY recv and send call index of handshakes (flavours x both roles) plus every placement of close_notify/warning/fatal/EOF/reset/EPIPE around data x closeSocket x ignoreAbruptClose x version x role; every API call is validated by TLC against ConnLifeTrace.tla (result class, closed, session resumability, alert description surfaced, bytes exact).",
+    "DESIGN.md section 5 C17, section 3.6, Appendix F.1",
+    "Trusted: TLC, scripted in-memory socket, stepping loop. A transport that failed once stays failed (recv and send).",
+    "TLA+ API-contract spec model-checked by TLC + exhaustive fault injection with TLC trace validation",
+    "tla-connlife")
